@@ -363,3 +363,16 @@ Theorem C15_make_compatible_repaired_refuted : exists us t' tr t2 w2,
   t2 <> cupdate us t' /\ cplay t2 <> cplay (cupdate us t').
 Proof. exact make_compatible_update_needs_no_warning. Qed.
 Print Assumptions C15_make_compatible_repaired_refuted.
+
+(* "exactly the counts that depend on volatile parameters are marked as changeable ... also after the program has been
+   ... compiled": with the repair, make_compatible without a VolatileModificationWarning keeps every volatile count
+   (cvols: the volatile counts of the tree in order); the code as it is loses one without any warning *)
+Theorem C15_make_compatible_repaired_keeps_counts : forall al mn q t t' tr,
+  make_compatible true al mn q t = Ok (t', false, tr) -> cvols t' = cvols t.
+Proof. exact make_compatible_keeps_vols. Qed.
+Print Assumptions C15_make_compatible_repaired_keeps_counts.
+
+Theorem C15_make_compatible_keeps_counts_refuted : exists t' tr,
+  make_compatible false ex_al 576 16 ex_mc_baked = Ok (t', false, tr) /\ cvols ex_mc_baked <> [] /\ cvols t' = [].
+Proof. exact make_compatible_current_loses_count. Qed.
+Print Assumptions C15_make_compatible_keeps_counts_refuted.
